@@ -646,7 +646,7 @@ pub fn mig_grid() -> Vec<History> {
     };
     let versions = [
         "0.14.9", "0.15.0", "0.15.5", "0.16.0", "0.16.1", "0.16.2", "0.16.3", "0.17.0", "0.18.2", "0.19.0", "0.19.1",
-        "0.19.2", "1.0.0", "1.0.1", "2.3.4", "1.0.0-rc1", "0.16.2-rc.1", "0.19.0-beta.1", "0.17.0+build5", "abc", "1.0",
+        "0.19.2", "1.0.0", "1.0.1", "2.3.4", "0.19.0+hotfix.1", "0.16.2+b", "1.2.0", "0.19.1-rc.1", "1.0.0-rc1", "0.16.2-rc.1", "0.19.0-beta.1", "0.17.0+build5", "abc", "1.0",
         "", "0.16.02", "v0.18.0", "0.18.0 ",
     ];
     let ask = (
